@@ -137,27 +137,39 @@ a backslash, inside a quote …) has none.  What the script text guarantees for 
 the status is read by the assignment `__SCRUT_EXIT_CODE=$?` directly behind the expression, never by
 a divider `echo`, so a swallowed or skipped assignment leaves the divider without an exit code --
 an execution error, not a success); what bash makes of it is exercised with the real binary by the
-harness stream `e2e-script-incomplete-expression-exhaustive`. -/
+harness stream `e2e-script-incomplete-expression-exhaustive`.
+
+CHANGED with the fix `set_consistent!(strip_ansi_escaping)` (the key is now carried into the compiled
+configuration and `strip_ansi_sequences_bytes` runs over the WHOLE captured stream, divider lines
+included): the statement carries the hypothesis `ScriptStripInert tests runs` -- no test case sets
+`strip_ansi_escaping: true`, or no command wrote an `ESC` byte.  Outside it the stripping does not
+commute with the divider protocol (a sequence a command leaves open runs into the following divider
+line: `ex_strip_open_osc`, `ex_strip_lone_esc`, execution errors), and "the bytes of the test's OWN
+command" is not what is judged.  What holds there: `Props/C16.lean` (`C16_script_strip_ansi_*`). -/
 theorem C05_script_no_false_success {tests : List Test} {runs : List SRan}
-    {outcomes : List Outcome} {status i : Nat} (h : runScript tests runs = .report outcomes status)
+    {outcomes : List Outcome} {status i : Nat} (hstrip : ScriptStripInert tests runs)
+    (h : runScript tests runs = .report outcomes status)
     (hi : (i, Verdict.ok) ∈ outcomes) :
     ∃ (t : Test) (r : SRan) (cfg : Compiled), tests[i]? = some t ∧ runs[i]? = some r ∧
       compileTestcase tests = some cfg ∧ r.ran.code = t.expected.getD 0 ∧
       accepts t.exps (scriptRendered cfg t r) = some true ∧
       (∀ r ∈ runs.take tests.length, r.leaves = false) ∧ scriptSkips tests runs = false :=
-  runScript_ok_sound_full h hi
+  runScript_ok_sound_full hstrip h hi
 
-/-- reading aid: `scriptRendered` is the model's `render_output` with the COMPILED `keep_crlf`
-(`strip_ansi_escaping` is not carried into the compiled configuration) on the test's own bytes:
+/-- reading aid: `scriptRendered` is the model's `render_output` with the COMPILED `keep_crlf` and
+`strip_ansi_escaping` on the test's own bytes when there is nothing to strip (the compiled key is
+not `true`, or the bytes hold no `ESC`):
 the bytes themselves under `keep_crlf: true` (the Cram default), else every byte in order except
 each CR that is immediately followed by LF -/
-theorem C05_script_rendered (cfg : Compiled) (t : Test) (r : SRan) :
-    Scrut.Crlf.renderOutput cfg.keepCrlf none (fun b => some b) (scriptSelected cfg t r) =
+theorem C05_script_rendered (cfg : Compiled) (t : Test) (r : SRan)
+    (hs : cfg.stripAnsi ≠ some true ∨ Scrut.StripAnsi.esc ∉ scriptSelected cfg t r) :
+    Scrut.Crlf.renderOutput cfg.keepCrlf cfg.stripAnsi (fun b => some (Scrut.StripAnsi.strip b))
+        (scriptSelected cfg t r) =
       some (scriptRendered cfg t r) ∧
     (cfg.keepCrlf = some true → scriptRendered cfg t r = scriptSelected cfg t r) ∧
     (cfg.keepCrlf ≠ some true →
       scriptRendered cfg t r = Scrut.Crlf.replaceCrlfSpec (scriptSelected cfg t r)) :=
-  ⟨scriptRendered_spec cfg t r, scriptRendered_keep cfg t r, scriptRendered_replace cfg t r⟩
+  ⟨scriptRendered_spec cfg t r hs, scriptRendered_keep cfg t r, scriptRendered_replace cfg t r⟩
 
 /-- reading aid: the compiled `keep_crlf` is the one every test case that sets `keep_crlf` sets -/
 theorem C05_script_compiled_keep_crlf {tests : List Test} {cfg : Compiled}
@@ -168,6 +180,7 @@ theorem C05_script_compiled_keep_crlf {tests : List Test} {cfg : Compiled}
 /-- … from the bytes of a Cram document (`CramDocTests`: read, parsed with indentation 2, prepared) -/
 theorem C05_cram_document_no_false_success {bytes : Bytes} {runs : List SRan}
     {outcomes : List Outcome} {status i : Nat}
+    (hstrip : ∀ tests, CramDocTests bytes tests → ScriptStripInert tests runs)
     (h : testCramDocumentBytes bytes runs = .report outcomes status)
     (hi : (i, Verdict.ok) ∈ outcomes) :
     ∃ (tests : List Test) (t : Test) (r : SRan) (cfg : Compiled), CramDocTests bytes tests ∧
@@ -175,11 +188,12 @@ theorem C05_cram_document_no_false_success {bytes : Bytes} {runs : List SRan}
       compileTestcase tests = some cfg ∧ r.ran.code = t.expected.getD 0 ∧
       accepts t.exps (scriptRendered cfg t r) = some true ∧
       (∀ r ∈ runs.take tests.length, r.leaves = false) ∧ scriptSkips tests runs = false :=
-  testCramDocumentBytes_ok_sound_full h hi
+  testCramDocumentBytes_ok_sound_full hstrip h hi
 
 /-- … from the bytes of a Markdown document read under `--cram-compat` (`CompatDocTests`) -/
 theorem C05_compat_document_no_false_success {bytes : Bytes} {runs : List SRan}
     {outcomes : List Outcome} {status i : Nat}
+    (hstrip : ∀ tests, CompatDocTests bytes tests → ScriptStripInert tests runs)
     (h : testDocumentCompatBytes bytes runs = .report outcomes status)
     (hi : (i, Verdict.ok) ∈ outcomes) :
     ∃ (tests : List Test) (t : Test) (r : SRan) (cfg : Compiled), CompatDocTests bytes tests ∧
@@ -187,7 +201,7 @@ theorem C05_compat_document_no_false_success {bytes : Bytes} {runs : List SRan}
       compileTestcase tests = some cfg ∧ r.ran.code = t.expected.getD 0 ∧
       accepts t.exps (scriptRendered cfg t r) = some true ∧
       (∀ r ∈ runs.take tests.length, r.leaves = false) ∧ scriptSkips tests runs = false :=
-  testDocumentCompatBytes_ok_sound_full h hi
+  testDocumentCompatBytes_ok_sound_full hstrip h hi
 
 /-! Non-vacuity, evaluated by the kernel from the bytes of a document with two test cases (the
 second: `{output_stream: stderr}`, glob + optional expectation, `[3]`): both `success` (the second
@@ -211,8 +225,8 @@ example : testDocumentCompatBytes exCrlfBytes [⟨⟨[97, 13, 10], [], 0⟩, fal
 example : testDocumentCompatBytes exCrlfBytes [⟨⟨[97, 13], [], 0⟩, false⟩] = .report [(0, .malformed)] 50 :=
   ex_crlf_report_cr
 example : CompatDocTests exCrlfBytes exCrlfTests := ex_crlf_docTests
-example : compileTestcase exCrlfTests = some ⟨some false, some .combined, some 80⟩ ∧
-    scriptRendered ⟨some false, some .combined, some 80⟩
+example : compileTestcase exCrlfTests = some ⟨some false, some .combined, some 80, none⟩ ∧
+    scriptRendered ⟨some false, some .combined, some 80, none⟩
       ⟨{ outputStream := some .combined, keepCrlf := some false, skipCode := some 80 }, [⟨.equal [97], false, false⟩], none⟩
       ⟨⟨[97, 13, 10], [], 0⟩, false⟩ = [97, 10] := ex_crlf_rendered
 example : Scrut.Crlf.replaceCrlfSpec (Scrut.Divider.chunk modelSalt 0 [97, 13] 0) =
